@@ -11,7 +11,20 @@ parsed and compared with the model driver (`findings`); (3) a share of the cases
 the real commands (`report_command`, `findings_command`) on a report written by `ReportWriter`.
 Oracle: the property itself, evaluated on the real output against the numbers stored in
 `codebase.totals` / `codebase.files` (it says nothing about the figures of a language that only
-the current report has: those cells are compared with the model only)."""
+the current report has: those cells are compared with the model only).
+
+"Stored" is what the report holds BEFORE anything is rendered (a snapshot of the plain numbers); on top of
+the single renderings there are
+ * STATE PROBES: after current-vs-previous was rendered, both reports must still store the same numbers, the
+   PREVIOUS report rendered as the current one (alone, both formats) must show exactly its own numbers, and
+   rendering the pair again must give the same cells; a history stream renders a small pool of Report OBJECTS
+   in random sequences (overview alone / against another object of the pool / against itself, findings) - every
+   rendering is judged against the snapshot taken when the object was built;
+ * CONFIGURATION variants: findings, overviews and the commands are repeated with Configuration.exclude set to
+   patterns that match the report's own files (directories, extensions, base names, `*`, negation),
+   Configuration.repository and Configuration.verbose set - the property quantifies over reports, not over
+   the configuration of the process that renders them;
+ * console WIDTHS for the text overview (only where rich says the table fits without wrapping)."""
 import contextlib
 import io
 import os
@@ -24,6 +37,7 @@ sys.path.insert(0, os.path.dirname(os.path.dirname(os.path.abspath(__file__))))
 sys.path.insert(0, os.path.join(os.path.dirname(os.path.dirname(os.path.dirname(os.path.abspath(__file__)))), "translator"))
 import common
 import logic
+import h4_support as h4
 
 ID = "C18"
 TRUSTED = [
@@ -81,10 +95,10 @@ def stored_units(report):
             for path, e in report.codebase.files.items()]
 
 
-def console():
+def console(width=None):
     from rich.console import Console
     buf = io.StringIO()
-    return buf, Console(file=buf, width=WIDTH, soft_wrap=True)
+    return buf, Console(file=buf, width=width or WIDTH, soft_wrap=True)
 
 
 # ------------------------------------------------------------------ reading the real overview
@@ -112,14 +126,22 @@ def table_cells(table):
     return {"rows": rows, "footer": footer}
 
 
-def real_overview_text(report, diff):
+def real_overview_text(report, diff, width=None, print_console=True):
+    """width given: -> (cells, printed, raw) with printed = None when rich says the table does not fit unwrapped;
+    print_console=False: only the cells handed to rich (printed = None)"""
     from codelimit.common.ScanResultTable import ScanResultTable
     from codelimit.common.ScanTotals import ScanTotals
     from codelimit.common.report import format_text
     st = ScanTotals(report.codebase.totals)
     table = ScanResultTable(st, ScanTotals(diff.codebase.totals)) if diff else ScanResultTable(st)
     cells = table_cells(table)
-    buf, con = console()
+    if not print_console:
+        return cells, None, ""
+    buf, con = console(width)
+    if width is not None:
+        from rich.measure import Measurement
+        if Measurement.get(con, con.options, table).maximum > width:
+            return cells, None, ""
     format_text.print_totals(con, report, diff)
     printed = parse_text_table(buf.getvalue())
     return cells, printed, buf.getvalue()
@@ -508,8 +530,8 @@ def gen_findings(rnd, n_long):
 
 # ------------------------------------------------------------------ one case = all its renderings
 
-def run_overview_case(cur, prev):
-    """-> (requests for the model, observations, oracle failures)"""
+def run_overview_case(cur, prev, probes=True, widths=()):
+    """-> (input, requests for the model, observations, oracle failures)"""
     report = build_report(cur)
     diff = build_report(prev) if prev is not None else None
     cur_tot = stored_totals(report)
@@ -519,6 +541,11 @@ def run_overview_case(cur, prev):
     req = expected_overview(cur_tot, prev_tot)
     inp = {"stream": "overview", "cur": cur, "prev": prev}
     fails = []
+    for w in widths:
+        _c, pr, raw_w = real_overview_text(report, diff, w)
+        if pr is not None and pr != cells:
+            fails.append({"input": dict(inp, width=w), "observed": {"console": pr, "raw": raw_w}, "required": {"table cells": cells},
+                          "what": "console lines of the text overview on a %d-column console (wide enough for the table) differ from the cells" % w})
     keys_ok = all(t[0] == t[1] for t in cur_tot + (prev_tot or []))
     if not keys_ok:
         fails.append({"input": inp, "observed": "key != language", "required": "codebase.totals keyed by language"})
@@ -541,11 +568,35 @@ def run_overview_case(cur, prev):
             fails.append({"input": inp, "observed": {"text": cells, "markdown": md}, "required": "identical cells",
                           "what": "text and Markdown annotate differently"})
     reqs = [overview_request("text", cur_tot, prev_tot), overview_request("markdown", cur_tot, prev_tot)]
-    return inp, reqs, [cells, md], fails
+    obs = [cells, md]
+    if probes and diff is not None:
+        # STATE PROBES on the two report objects
+        if stored_totals(report) != cur_tot or stored_totals(diff) != prev_tot:
+            fails.append({"input": inp, "observed": {"current now stores": stored_totals(report), "previous now stores": stored_totals(diff)},
+                          "required": {"current": cur_tot, "previous": prev_tot},
+                          "what": "rendering the overview changed the numbers stored in a report"})
+        req_prev = expected_overview(prev_tot, None)
+        cells_p, _printed, _raw = real_overview_text(diff, None, print_console=False)
+        md_p, _raw = real_overview_md(diff, None)
+        for name, o in (("text", cells_p), ("markdown", md_p)):
+            if not meets(o, req_prev):
+                fails.append({"input": dict(inp, probe="previous report rendered as the current one, after current-vs-previous was rendered"),
+                              "format": name, "observed": o, "required": req_prev,
+                              "what": "the previous report, rendered on its own after it served as comparison, does not show its stored figures"})
+        reqs += [overview_request("text", prev_tot, None), overview_request("markdown", prev_tot, None)]
+        obs += [cells_p, md_p]
+        cells_again, _p, _r = real_overview_text(report, diff, print_console=False)
+        if cells_again != cells:
+            fails.append({"input": dict(inp, probe="same pair rendered twice"), "observed": {"text": cells_again},
+                          "required": {"text": cells}, "what": "rendering the same pair a second time gives other cells"})
+    return inp, reqs, obs, fails
 
 
-def run_findings_case(files):
+def run_findings_case(files, cfg=None, cfg_label=None):
+    """cfg: configuration of the rendering process (kwargs of h4.configured); the report is built under the default one"""
     inp0 = {"stream": "findings", "files": files}
+    if cfg:
+        inp0.update(cfg=cfg, cfg_label=cfg_label)
     reqs, obs, fails, inps = [], [], [], []
     for repo in (False, True):
         report = build_report(files, repo)
@@ -554,7 +605,8 @@ def run_findings_case(files):
             if fmt == "text" and repo:
                 continue
             for full in (False, True):
-                o, raw = real_findings(report, fmt, full)
+                with h4.configured(**(cfg or {})):
+                    o, raw = real_findings(report, fmt, full)
                 inp = dict(inp0, fmt=fmt, repo=repo, full=full)
                 req = expected_findings(units, full, fmt, repo)
                 if not findings_meet(o, req):
@@ -566,13 +618,20 @@ def run_findings_case(files):
     return inps, reqs, obs, fails
 
 
-def run_command_case(cur, prev, repo):
-    """the same through report_command / findings_command on written reports"""
-    report, diff, outs = with_commands(cur, prev, repo)
-    cur_tot = stored_totals(report)
-    prev_tot = stored_totals(diff) if diff is not None else None
-    units = stored_units(report)
+def run_command_case(cur, prev, repo, cfg=None):
+    """the same through report_command / findings_command on written reports; cfg = configuration of the process
+    that writes the reports and runs the commands (the reference numbers come from a build under the default one)"""
+    if cfg:
+        with h4.configured(**cfg):
+            report, diff, outs = with_commands(cur, prev, repo)
+    else:
+        report, diff, outs = with_commands(cur, prev, repo)
+    cur_tot = stored_totals(build_report(cur, repo))
+    prev_tot = stored_totals(build_report(prev, repo)) if prev is not None else None
+    units = stored_units(build_report(cur, repo))
     inp = {"stream": "commands", "cur": cur, "prev": prev, "repo": repo}
+    if cfg:
+        inp["cfg"] = cfg
     reqs, obs, fails = [], [], []
     req = expected_overview(cur_tot, prev_tot)
     for fmt in ("text", "markdown"):
@@ -593,6 +652,80 @@ def run_command_case(cur, prev, repo):
             reqs.append(findings_request(fmt, repo, full, units))
             obs.append(o)
     return inp, reqs, obs, fails
+
+
+# ------------------------------------------------------------------ histories over Report objects
+
+def make_pool(rnd):
+    """three related code bases (current, previous, a third one with findings) -> (files per object, repo flag per object)"""
+    cur, prev, _k = gen_pair(rnd)
+    if prev is None:
+        prev = [list(f) for f in cur[: len(cur) // 2]]
+    third = gen_pair(rnd)[0] + gen_findings(rnd, rnd.choice([0, 3, 10, 11, 25]))
+    return [cur, prev, third], [False, rnd.random() < 0.5, rnd.random() < 0.5]
+
+
+def gen_ops(rnd, n):
+    ops = []
+    for _ in range(n):
+        if rnd.random() < 0.75:
+            ops.append(["overview", rnd.choice(["text", "markdown"]), rnd.randrange(3), rnd.choice([None, 0, 1, 2])])
+        else:
+            ops.append(["findings", rnd.choice(["text", "markdown"]), rnd.randrange(3), rnd.random() < 0.5])
+    return ops
+
+
+def run_history(pool, repos, ops):
+    """render the SAME Report objects in sequence; every rendering against the snapshot taken when the object was built.
+    -> (requests, observations, decoders, inputs, failures)"""
+    objs = [build_report(fs, r) for fs, r in zip(pool, repos)]
+    snaps = [(stored_totals(o), stored_units(o)) for o in objs]
+    reqs, obs, decs, inps, fails = [], [], [], [], []
+    for k, op in enumerate(ops):
+        inp = {"stream": "history", "pool": pool, "repos": repos, "ops": ops[:k + 1]}
+        if op[0] == "overview":
+            _, fmt, i, j = op
+            diff = objs[j] if j is not None else None
+            if fmt == "text":
+                o, printed, raw = real_overview_text(objs[i], diff)
+                if printed != o:
+                    fails.append({"input": inp, "observed": {"console": printed, "raw": raw}, "required": {"table cells": o},
+                                  "what": "console lines of the text overview differ from the cells handed to rich"})
+            else:
+                o, raw = real_overview_md(objs[i], diff)
+            req = expected_overview(snaps[i][0], snaps[j][0] if j is not None else None)
+            if not meets(o, req):
+                fails.append({"input": inp, "format": fmt, "observed": o, "required": req,
+                              "what": "overview of object %d%s (after %d earlier renderings of the same objects) does not show the figures it stored when built"
+                                      % (i, "" if j is None else " against object %d" % j, k)})
+            reqs.append(overview_request(fmt, snaps[i][0], snaps[j][0] if j is not None else None))
+            decs.append(dec_overview)
+        else:
+            _, fmt, i, full = op
+            o, raw = real_findings(objs[i], fmt, full)
+            repo = repos[i] and fmt == "markdown"
+            req = expected_findings(snaps[i][1], full, fmt, repos[i])
+            if not findings_meet(o, req):
+                fails.append({"input": inp, "observed": o, "required": req, "raw": raw[-2000:],
+                              "what": "findings of object %d after %d earlier renderings" % (i, k)})
+            reqs.append(findings_request(fmt, repos[i], full, snaps[i][1]))
+            decs.append(dec_findings)
+        obs.append(o)
+        inps.append(inp)
+        if fails:
+            break
+    for i, o in enumerate(objs):
+        if (stored_totals(o), stored_units(o)) != snaps[i] and not fails:
+            fails.append({"input": {"stream": "history", "pool": pool, "repos": repos, "ops": ops}, "observed": stored_totals(o), "required": snaps[i][0],
+                          "what": "the renderings changed what object %d stores" % i})
+    return reqs, obs, decs, inps, fails
+
+
+def shrink_history(pool, repos, ops):
+    """drop operations while the history still fails"""
+    def bad(o):
+        return bool(run_history(pool, repos, o)[4])
+    return h4.ddmin_list(ops, bad, budget_s=3.0)
 
 
 def locale_ok():
@@ -626,12 +759,24 @@ def correspond(ctx):
     batch = []           # (input, request, observed, decoder, stream)
     n_pairs = ctx.pick(2000, 20000)
     pairs = [(c, p, "regress") for c, p in REGRESS] + [gen_pair(rnd) for _ in range(n_pairs)]
-    for cur, prev, kind in pairs:
-        inp, reqs, obs, f = run_overview_case(cur, prev)
+    crnd = ctx.rng("pairs-cfg")
+    for pi, (cur, prev, kind) in enumerate(pairs):
+        widths = (100, 160, 1000) if pi % 20 == 0 else ()
+        if pi % 5 == 4:
+            label, cfg = crnd.choice(h4.config_variants([f[0] for f in cur], crnd))
+            with h4.configured(**cfg):
+                inp, reqs, obs, f = run_overview_case(cur, prev, widths=widths)
+            for x in f:
+                x["input"] = dict(x["input"], cfg=cfg)
+            dist["pairs_configured"] = dist.get("pairs_configured", 0) + 1
+        else:
+            inp, reqs, obs, f = run_overview_case(cur, prev, widths=widths)
         fails += f
         dist["pairs"][kind] = dist["pairs"].get(kind, 0) + 1
-        for fmt, rq, o in zip(("text", "markdown"), reqs, obs):
+        for fmt, rq, o in zip(("text", "markdown", "text", "markdown"), reqs, obs):
             batch.append((dict(inp, fmt=fmt), rq, o, dec_overview, "overview-" + fmt))
+        if len(reqs) > 2:
+            dist["previous_rendered_as_current"] = dist.get("previous_rendered_as_current", 0) + 1
         if prev is not None and len({f[1] for f in cur}) > 1:
             nontrivial.add(rq)
     rnd = ctx.rng("findings")
@@ -643,6 +788,16 @@ def correspond(ctx):
         dist["findings_by_count"][n_long] = dist["findings_by_count"].get(n_long, 0) + 1
         for inp, rq, o in zip(inps, reqs, obs):
             batch.append((inp, rq, o, dec_findings, "findings-%s%s" % (inp["fmt"], "-repo" if inp["repo"] else "")))
+        # the same report rendered by a process with another configuration
+        if n_long <= 100 and sum(dist["findings_by_count"].values()) % 2 == 0:
+            label, cfg = rnd.choice(h4.config_variants([f_[0] for f_ in files], rnd))
+            inps, reqs, obs, f = run_findings_case(files, cfg, label)
+            fails += f
+            dist["findings_configured"] = dist.get("findings_configured", 0) + 1
+            kind = "exclude" if "exclude" in cfg and len(cfg) == 1 else "all" if len(cfg) > 1 else list(cfg)[0]
+            dist.setdefault("findings_configured_kinds", {})[kind] = dist.setdefault("findings_configured_kinds", {}).get(kind, 0) + 1
+            for inp, rq, o in zip(inps, reqs, obs):
+                batch.append((inp, rq, o, dec_findings, "findings-configured"))
         if n_long > 10:
             nontrivial.add(reqs[0])
     rnd = ctx.rng("commands")
@@ -650,11 +805,33 @@ def correspond(ctx):
         cur, prev, _ = gen_pair(rnd)
         if k % 3 == 0:
             cur = cur + gen_findings(rnd, rnd.choice([0, 9, 10, 11, 12, 25]))
-        inp, reqs, obs, f = run_command_case(cur, prev, rnd.random() < 0.5)
+        cfg = None
+        if k % 3 == 1:
+            cfg = rnd.choice(h4.config_variants([f_[0] for f_ in cur], rnd))[1]
+            dist["commands_configured"] = dist.get("commands_configured", 0) + 1
+        inp, reqs, obs, f = run_command_case(cur, prev, rnd.random() < 0.5, cfg)
         fails += f
         dist["commands"] += 1
         for i, (rq, o) in enumerate(zip(reqs, obs)):
             batch.append((dict(inp, part=i), rq, o, dec_overview if rq.startswith("overview") else dec_findings, "commands"))
+    rnd = ctx.rng("histories")
+    for k in range(ctx.pick(150, 2000)):
+        pool, repos = make_pool(rnd)
+        ops = gen_ops(rnd, rnd.randint(3, 8))
+        reqs, obs, decs, inps, f = run_history(pool, repos, ops)
+        if f:
+            small = shrink_history(pool, repos, ops)
+            f2 = run_history(pool, repos, small)[4]
+            f = f2 or f
+        fails += f
+        dist["histories"] = dist.get("histories", 0) + 1
+        dist["history_renderings"] = dist.get("history_renderings", 0) + len(reqs)
+        for inp, rq, o, dec in zip(inps, reqs, obs, decs):
+            batch.append(({"stream": "history", "ops": inp["ops"], "pool": "see the oracle failure / regenerate with the seed"} if len(str(inp)) > 4000 else inp,
+                          rq, o, dec, "history"))
+    if not h4.configuration_is_default():
+        dis.append({"stream": "configured", "input": {"stream": "configured"}, "model": "default configuration restored", "impl": "configuration left modified"})
+    fails.sort(key=lambda x: len(str(x["input"])))
     replies = common.run_driver_sharded([b[1] for b in batch])
     for (inp, rq, o, dec, stream), reply in zip(batch, replies):
         m = dec(reply)
@@ -669,8 +846,14 @@ def correspond(ctx):
                  "removed, changed, unchanged, insertion orders shuffled) x text (table cells AND console lines) and Markdown; "
                  "%d codebases with 0..25, 40, 100 functions longer than 30 (ties frequent, boundary lengths 29..32, 59..62) x "
                  "text / Markdown / Markdown with repository x full / not; %d pairs through ReportWriter + report_command / "
-                 "findings_command; non-trivial = distinct diffs with >= 2 current languages, and codebases with more than 10 findings"
-                 % (len(pairs), len(dist["findings_by_count"]) and sum(dist["findings_by_count"].values()), dist["commands"])),
+                 "findings_command; after every pair: stored numbers unchanged, the previous report rendered as current (text cells, "
+                 "Markdown), the pair's cells computed again; every 5th pair, every 2nd findings code base (once more) and every 3rd command run under a "
+                 "configuration variant (Configuration.exclude = a directory / extension / base name / full path of the report's files, `*`, "
+                 "`*` + negation; repository; verbose; all); every 20th pair also on consoles 100 / 160 / 1000 wide where the table fits; "
+                 "%d histories of 3..8 renderings over a pool of three Report objects (overview alone / against another / against itself, "
+                 "findings) judged against the snapshot taken when the objects were built; "
+                 "non-trivial = distinct diffs with >= 2 current languages, and codebases with more than 10 findings"
+                 % (len(pairs), len(dist["findings_by_count"]) and sum(dist["findings_by_count"].values()), dist["commands"], dist.get("histories", 0))),
         "samples": samples, "exhaustive": False, "distribution": dist,
         "disagreements": dis[:50], "oracle_failures": fails[:50],
         "generated_hashes": {"Gen/Logic.lean": _sha(os.path.join(common.LEAN, "CodeLimit", "Gen", "Logic.lean"))},
@@ -697,19 +880,36 @@ def search(ctx, hints):
         cur, prev, _k = gen_pair(rnd)
         fails += run_overview_case(cur, prev)[3]
     for n_long in list(range(0, 26)) * 4:
-        fails += run_findings_case(gen_findings(rnd, n_long))[3]
+        files = gen_findings(rnd, n_long)
+        fails += run_findings_case(files)[3]
+        label, cfg = rnd.choice(h4.config_variants([f_[0] for f_ in files], rnd))
+        fails += run_findings_case(files, cfg, label)[3]
+    for _ in range(ctx.pick(100, 500)):
+        pool, repos = make_pool(rnd)
+        fails += run_history(pool, repos, gen_ops(rnd, 6))[4]
     fails.sort(key=lambda f: len(str(f["input"])))
     return fails[:20]
 
 
 def replay(payload):
     inp = payload["input"]
+    def cfg_of(i):
+        c = dict(i.get("cfg") or {})
+        if c.get("repository") is not None:
+            c["repository"] = tuple(c["repository"])
+        return c
     if inp["stream"] == "overview":
-        f = run_overview_case(inp["cur"], inp["prev"])[3]
+        with h4.configured(**cfg_of(inp)):
+            f = run_overview_case(inp["cur"], inp["prev"], widths=[inp["width"]] if "width" in inp else ())[3]
     elif inp["stream"] == "findings":
-        f = run_findings_case(inp["files"])[3]
+        f = run_findings_case(inp["files"], cfg_of(inp) or None, inp.get("cfg_label"))[3]
+    elif inp["stream"] == "history":
+        if not isinstance(inp.get("pool"), list):
+            print("summary only")
+            return True
+        f = run_history(inp["pool"], inp["repos"], inp["ops"])[4]
     else:
-        f = run_command_case(inp["cur"], inp["prev"], inp["repo"])[3]
+        f = run_command_case(inp["cur"], inp["prev"], inp["repo"], cfg_of(inp) or None)[3]
     for x in f[:3]:
         print("still fails: %s\n observed %s\n required %s" % (x.get("what"), x.get("observed"), x.get("required")))
     return not f
